@@ -54,7 +54,7 @@ func (g *c10Gen) leaf() *proto.Query_Expression {
 		if g.nleaf%2 == 0 {
 			return pbEq("b", "", 2)
 		}
-		return pbEq("c", "w", 0)
+		return pbEq("c", "w\r\nx \"\" y\t", 0) // CR LF, doubled quote, blanks and a tab inside a value
 	}
 	col := g.ident()
 	g.nleaf++
@@ -63,7 +63,7 @@ func (g *c10Gen) leaf() *proto.Query_Expression {
 		if g.nleaf%2 == 0 {
 			return pbEq(col, "", 2)
 		}
-		return pbEq(col, "w", 0)
+		return pbEq(col, "w\r\nx \"\" y\t", 0)
 	}
 	if verifBool("placeholder") {
 		if g.firstPh {
